@@ -1,6 +1,7 @@
 package main
 
 import (
+	"encoding/json"
 	"flag"
 	"fmt"
 	"os"
@@ -301,6 +302,88 @@ func main() {
 		fmt.Printf("sweep: %d/%d functions with every safety obligation discharged\n", okc, len(res))
 	case "check":
 		os.Exit(runCheck(*repo, *prop, *tier, opts))
+	case "replay":
+		// replay <file>: re-establish a reported violation on the current tree. Exit 1 when it still shows (the replayed
+		// input misbehaves on the real code / the obligation is still undischarged), 0 when it no longer does.
+		if fs.NArg() < 1 {
+			fmt.Println("usage: govc replay <replay file>")
+			os.Exit(2)
+		}
+		raw, err := os.ReadFile(fs.Arg(0))
+		if err != nil {
+			fmt.Println(err)
+			os.Exit(2)
+		}
+		eng, err := loadEngine(*repo)
+		if err != nil {
+			fmt.Println("load:", err)
+			os.Exit(2)
+		}
+		eng.computeEffects()
+		if strings.Contains(string(raw), "\"failing_inputs\"") {
+			ev := Evidence{Coverage: map[string]interface{}{}}
+			exit := 0
+			addBounded(eng, "C04", "quick", &ev, &exit, verifDir())
+			if exit == 0 {
+				fmt.Println("bounded stand-in passes on the current tree:", ev.Coverage["bounded_stand_in"])
+			}
+			os.Exit(exit)
+		}
+		var rf ReplayFile
+		if err := json.Unmarshal(raw, &rf); err != nil {
+			fmt.Println("not a replay file:", err)
+			os.Exit(2)
+		}
+		fmt.Printf("obligation %s\n  %s\n  reported: %s %s\n", rf.Obligation, rf.Desc, rf.Status, rf.Note)
+		if rf.TestSource != "" {
+			scratch, _ := os.MkdirTemp("/var/tmp", "govc-replay-")
+			defer os.RemoveAll(scratch)
+			rf.Reproduced, rf.Note = false, ""
+			runReplay(eng, &rf, scratch)
+			fmt.Printf("  replay of the stored input on the current tree: reproduced=%v (%s)\n", rf.Reproduced, rf.Note)
+			if rf.Reproduced {
+				os.Exit(1)
+			}
+			os.Exit(0)
+		}
+		// no input was found when the violation was reported: re-verify the item and look at the obligation
+		item := strings.SplitN(rf.Obligation, "#", 2)[0]
+		var r *FuncResult
+		if strings.HasPrefix(item, "lemma:") {
+			if lem := eng.findLemmaByPattern(item); lem != nil {
+				r = verifyLemma(eng, lem, opts)
+			}
+		} else {
+			for _, fn := range findFuncs(eng, item) {
+				if shortFuncName(fn) == item {
+					r = verifyFunc(eng, fn, eng.Contracts[fn], opts)
+				}
+			}
+		}
+		if r == nil {
+			fmt.Println("  the contract item", item, "cannot be found on the current tree (binding failure): still a violation")
+			os.Exit(1)
+		}
+		for _, e := range r.VC.specErrs {
+			fmt.Println("  contract error:", e)
+		}
+		found := false
+		for _, o := range r.Obls {
+			if o.Name == rf.Obligation {
+				found = true
+				fmt.Printf("  on the current tree: %s (%s)\n", o.Status, o.Output)
+				if !o.discharged() {
+					os.Exit(1)
+				}
+			}
+		}
+		if !found && len(r.VC.specErrs) > 0 {
+			os.Exit(1)
+		}
+		if !found {
+			fmt.Println("  the obligation is no longer generated (discharged trivially or renumbered); the item verifies:", printResult(r, false))
+		}
+		os.Exit(0)
 	case "list":
 		eng, err := loadEngine(*repo)
 		if err != nil {
